@@ -979,6 +979,94 @@ func c16AllPoints(trace []vStep) string {
 
 // ---------------------------------------------------------------- randomised concurrent mixes (run under -race)
 
+// the unseal request among concurrent requests: fresh sealed states, two injections racing readers of
+// the key material that poll from before the unseal until after it
+func c16RaceUnseal(t *testing.T, res *verifResult) {
+	rounds := 4
+	if verifThorough() {
+		rounds = 60
+	}
+	routes := []string{"/public/sshca", idpOpenIDCJWKSPath, "/public/x509ca"}
+	for round := 0; round < rounds; round++ {
+		env := verifSetupSealed(t, func(c *AppConfigFile, dir string) {
+			c.Base.AllowedAuthBackendsForWebUI = []string{"password"}
+		})
+		env.handler = env.buildHandler()
+		var wg sync.WaitGroup
+		start := make(chan bool)
+		var stop atomic.Bool
+		type obs struct {
+			route string
+			body  []byte
+		}
+		var mu sync.Mutex
+		var seen []obs
+		inj := make([]int, 2)
+		for i := range inj {
+			wg.Add(1)
+			go func(i int) {
+				defer wg.Done()
+				<-start
+				time.Sleep(time.Duration(200+300*i) * time.Microsecond)
+				inj[i] = env.inject(env.passphrase, true)
+			}(i)
+		}
+		var readers sync.WaitGroup
+		for i := 0; i < 12; i++ {
+			readers.Add(1)
+			go func(i int) {
+				defer readers.Done()
+				<-start
+				route := routes[i%len(routes)]
+				for n := 0; n < 4000 && !stop.Load(); n++ {
+					rr, pan := env.serve(verifNewRequest("GET", route, nil))
+					if pan {
+						res.hit(verifHit{Key: "C16:panic:unseal-reader", Oracle: "no handler panics under concurrency", What: route + " panicked while the unseal request ran", Case: round})
+						return
+					}
+					if rr.Code == 200 {
+						mu.Lock()
+						seen = append(seen, obs{route, append([]byte{}, rr.Body.Bytes()...)})
+						mu.Unlock()
+						if n%2 == 0 {
+							return
+						}
+					}
+				}
+			}(i)
+		}
+		close(start)
+		wg.Wait()
+		time.Sleep(2 * time.Millisecond)
+		stop.Store(true)
+		readers.Wait()
+		ok := 0
+		for _, c := range inj {
+			if c == 200 {
+				ok++
+			}
+		}
+		if ok != 1 {
+			res.hit(verifHit{Key: "C16:unseal-twice", Kind: "schedule", Oracle: "two simultaneous unseal requests: exactly one is acknowledged", What: fmt.Sprintf("answers %v", inj), Case: round})
+		}
+		final := map[string][]byte{}
+		for _, route := range routes {
+			rr, _ := env.serve(verifNewRequest("GET", route, nil))
+			final[route] = rr.Body.Bytes()
+		}
+		for _, o := range seen {
+			res.eval("race-unseal|"+o.route, true)
+			if !bytes.Equal(o.body, final[o.route]) {
+				name := map[string]string{"/public/sshca": "sshca", idpOpenIDCJWKSPath: "jwks", "/public/x509ca": "x509ca"}[o.route]
+				res.hit(verifHit{Key: "C16:unsealed-incomplete-keys:" + name, Kind: "schedule",
+					Oracle: "a request served while the unseal request runs sees the server either sealed or unsealed with its complete key material",
+					What:   fmt.Sprintf("under real concurrency GET %s was answered 200 with %d bytes while the unseal request ran; afterwards it gives %d bytes", o.route, len(o.body), len(final[o.route])), Case: round})
+			}
+		}
+		res.bump("race_unseal_rounds")
+	}
+}
+
 func TestVerif_C16Race(t *testing.T) {
 	res := newVerifResult("randomised concurrent mixes of the whole handler set (token management, registration requests, U2F sign request / response with a software token, TOTP auth, bootstrap OTP, VIP push start / poll, OAuth2 begin / callback, user add / delete, state clean-up) under the race detector; plus the one-time-value oracles on simultaneous presentations")
 	env := verifSetup(t, func(c *AppConfigFile, dir string) {
@@ -996,6 +1084,7 @@ func TestVerif_C16Race(t *testing.T) {
 		names = append(names, n)
 	}
 	sort.Strings(names)
+	c16RaceUnseal(t, res)
 	budget := 10 * time.Second
 	if verifThorough() {
 		budget = 150 * time.Second
